@@ -60,8 +60,29 @@ def run(ctx):
     if not bad:
         ctx.ob('T8.base', nav.fq, 'navigate performs no write on self (no attribute store, no in-place normalisation, no mutation of its query)',
                True, loc=nav.loc)
+    # sibling agreement: the authority parts (and the scheme) of a relative reference are inherited alike -- each is
+    # `<reference part> or <base part>` (an `and`, a swapped pair or a missing fallback in one of them is the odd one out)
+    refname = nav.params[1] if len(nav.params) > 1 else 'dest'
+    fpcalls = [n for n in ast.walk(nav.node) if isinstance(n, ast.Call) and isinstance(n.func, ast.Attribute) and
+               n.func.attr == 'from_parts']
+    if not fpcalls:
+        ctx.unknown('T25.inherit', nav.fq, 'no from_parts(...) call in navigate', nav.loc)
+    for c in fpcalls:
+        kws = {k.arg: k.value for k in c.keywords if k.arg}
+        for fld in ('scheme', 'host', 'port', 'username', 'password'):
+            if fld not in kws:
+                ctx.ob('T25.inherit', nav.fq, 'the %s of the result is passed to from_parts' % fld, False, loc=loc(nav, c))
+                continue
+            e = kws[fld]
+            ok = isinstance(e, ast.BoolOp) and isinstance(e.op, ast.Or) and len(e.values) == 2 and \
+                isinstance(e.values[0], ast.Attribute) and e.values[0].attr == fld and not txt(e.values[0].value) == 'self' and \
+                txt(e.values[1]) == 'self.' + fld
+            ctx.ob('T25.inherit', nav.fq, 'the %s of the result is the reference\'s, else the base\'s (`ref.%s or self.%s`, like its '
+                   'siblings)' % (fld, fld, fld), ok, loc=loc(nav, c), detail=txt(e))
     # T20 from_parts
     fp = prog.func(CLS + '.from_parts')
+    from rules.common import params_read
+    params_read(ctx, fp, why='every part handed to from_parts ends up in the new URL')
     wf, fpaths = paths_of(prog, fp, recv=ci)
     from sa.consteval import Folder as _Folder, Unknown as _Unknown
     ffold = _Folder(prog.module('urlutils'))
